@@ -142,6 +142,7 @@ def exposes(cell, ir):
 
 def main(tier, write_baseline=False):
     run = Run("C04", tier, "other", checker_cmd=common.checker_cmd("C04", tier))
+    M.RAISE_CTX.update(prop="C04", write=bool(write_baseline))
     run.trusted_base.update(["rule engine of checks/C04.py (shape contracts of the three emitters)", "CPython, inspect.signature and argparse as the oracle of the bounded part"])
     refuted = []
     for name, ok, detail in shape_obligations():
@@ -194,6 +195,7 @@ def main(tier, write_baseline=False):
     for name, detail in refuted:
         run.violation(name, detail, failing_input=shape_inputs.get(name), solver_output={"rule": detail})
     M.report(run, "C04/bounded", fails)
+    M.flush_raise_baseline()
     common.apply_controls(run, tier)
     return run.finish(explanation="The property's specification is the interpreter; no contract within reach of the deductive engine carries it. PROVED: only three shape contracts (one emitted element per parameter). "
                       "BOUNDED: everything the statement says, by executing the emitted source over the stated domain.")
